@@ -45,6 +45,12 @@ impl FuelTracker {
     }
 }
 
+/// The fuel an instruction is charged, for the verification probes.
+#[cfg(feature = "verif_hooks")]
+pub(crate) fn verif_fuel_for_instruction(instruction: &Instruction) -> u64 {
+    fuel_for_instruction(instruction)
+}
+
 /// How much fuel does an instruction consume?
 fn fuel_for_instruction(instruction: &Instruction) -> u64 {
     match instruction {
